@@ -109,7 +109,12 @@ class C08(PropBase):
             if c.op == 'match':
                 me = c.args[0][1]
                 from props.c01 import natural as _nat
-                if _nat(v, me.split(':')[-1]) is None:
+                if ':' in me:
+                    ty_, body_ = me.split(':', 1)
+                    nat_me = _nat(v, body_, forced=ty_) if ty_ else _nat(v, body_)      # a uri is typed iff the type it names accepts the string
+                else:
+                    nat_me = _nat(v, me)
+                if nat_me is None:
                     continue      # match() is defined on typed Sids (an undefined Sid answers False by design)
                 if me.split('/')[-1] in v.alias:
                     continue      # a Sid whose last value is an alias name is a search, not an entity
